@@ -82,3 +82,24 @@ Definition layout : list (nat * nat * (header -> N)) :=
 Definition layout_ok (h : header) (bs : list byte) : bool :=
   (48 <=? N.of_nat (length bs)) &&
   forallb (fun '(off, w, get) => field bs off w =? get h) layout.
+
+(** The same encoder driven by a (field index, width) table: this is the form
+    that is compared with the table re-read from src/header.rs on every run. *)
+Definition field_of (i : nat) (h : header) : N :=
+  match i with
+  | 0 => h_length h | 1 => h_spec h | 2 => h_version h | 3 => h_notify h | 4 => h_reserved h
+  | 5 => h_id h | 6 => h_qlen h | 7 => h_blen h | 8 => h_qfmt h | 9 => h_bfmt h | _ => h_ec h
+  end%nat.
+
+Definition header_table : list (nat * nat) :=
+  [(0, 8); (1, 2); (2, 1); (3, 1); (4, 4); (5, 8); (6, 8); (7, 8); (8, 2); (9, 2); (10, 4)]%nat.
+
+Definition encode_tbl (tbl : list (nat * nat)) (h : header) : list byte :=
+  concat (map (fun '(i, w) => le_enc w (field_of i h)) tbl).
+
+(** offsets implied by a table: running sum of the widths *)
+Fixpoint offsets_of (o : nat) (tbl : list (nat * nat)) : list (nat * nat * nat) :=
+  match tbl with
+  | [] => []
+  | (i, w) :: tbl' => (o, w, i) :: offsets_of (o + w) tbl'
+  end.
